@@ -125,6 +125,31 @@ func singleTargets(a *gens.PathAlphabet, three bool, only []int) [][]int {
 		out = append(out, append([]int{}, idx...))
 		return true
 	})
+	// two descents in one target (four fragments): the matcher shifts the path
+	// under the first descent and has to let the second stand for zero levels
+	if only == nil {
+		desc := -1
+		var steps []int
+		for i, f := range a.Frags {
+			switch {
+			case a.Class[i] == "desc":
+				desc = i
+			case a.Class[i] == "wild":
+				steps = append(steps, i)
+			case a.Class[i] == "child" && (f.Key == "a" || f.Key == "x"):
+				steps = append(steps, i)
+			case a.Class[i] == "nth" && f.N == 0:
+				steps = append(steps, i)
+			}
+		}
+		if desc >= 0 {
+			for _, x := range steps {
+				for _, y := range steps {
+					out = append(out, []int{desc, x, desc, y})
+				}
+			}
+		}
+	}
 	// shortest first so that the cheap cases come first within a document
 	sort.SliceStable(out, func(i, j int) bool { return len(out[i]) < len(out[j]) })
 	return out
@@ -1190,6 +1215,9 @@ func (w *worker) singleFails(d *document, t gens.JPExpr, f failing) bool {
 // case reports the defect.
 func (w *worker) explainedByPrefix(d *document, t gens.JPExpr, f failing) bool {
 	for n := 2; n < len(t); n++ { // t[0] is the root
+		if t[n-1].K == "desc" {
+			continue // a prefix that ends in a bare descent is another kind of target, not a simpler form of this one
+		}
 		if w.singleFails(d, t[:n:n], f) {
 			return true
 		}
